@@ -137,6 +137,11 @@ func Construct(o Op) interface{} {
 			}
 		}
 		return r
+	case "yunobj":
+		return calendar.NewSolar(o.a(0), o.a(1), o.a(2), o.a(3), o.a(4), o.a(5)).GetLunar().GetEightChar().GetYunBySect(o.a(6), o.a(7))
+	case "dayun":
+		dy := calendar.NewSolar(o.a(0), o.a(1), o.a(2), o.a(3), o.a(4), o.a(5)).GetLunar().GetEightChar().GetYunBySect(o.a(6), o.a(7)).GetDaYun()
+		return dy[1+o.a(8)%(len(dy)-1)]
 	case "bazi":
 		l := calendar.ListSolarFromBaZiBySectAndBaseYear(o.s(0), o.s(1), o.s(2), o.s(3), o.a(0), o.a(1))
 		var out []string
@@ -206,16 +211,57 @@ func isLib(t reflect.Type) bool {
 	return t.Kind() == reflect.Struct && (strings.HasPrefix(t.PkgPath(), modPath) || strings.HasSuffix(t.PkgPath(), "harness/ops"))
 }
 
-// Accessors lists the zero-argument exported methods with at least one result.
-func Accessors(t reflect.Type) []string {
-	var out []string
+// Acc is one read-only call on an object: a zero-argument accessor, or a method whose
+// parameters are all int/bool (Next(n), GetYun(gender), ...BySect(sect), ...ByWholeDay(b))
+// with canned arguments. Set* methods are mutators and are never called.
+type Acc struct {
+	Name  string
+	Args  []reflect.Value
+	Label string
+}
+
+var intKind = reflect.TypeOf(0)
+var boolKind = reflect.TypeOf(false)
+
+// Accessors lists the read-only calls of t; every int/bool-parameter method is listed once per value in ints.
+func Accessors(t reflect.Type, ints []int) []Acc {
+	var out []Acc
 	for i := 0; i < t.NumMethod(); i++ {
 		m := t.Method(i)
-		if m.Type.NumIn() == 1 && m.Type.NumOut() >= 1 {
-			out = append(out, m.Name)
+		if m.Type.NumOut() < 1 || strings.HasPrefix(m.Name, "Set") {
+			continue
+		}
+		if m.Type.NumIn() == 1 {
+			out = append(out, Acc{Name: m.Name, Label: m.Name})
+			continue
+		}
+		ok := m.Type.NumIn() <= 3
+		for p := 1; p < m.Type.NumIn() && ok; p++ {
+			if pt := m.Type.In(p); pt != intKind && pt != boolKind {
+				ok = false
+			}
+		}
+		if !ok {
+			continue
+		}
+		for _, v := range ints {
+			a := Acc{Name: m.Name}
+			var lab []string
+			for p := 1; p < m.Type.NumIn(); p++ {
+				if m.Type.In(p) == boolKind {
+					b := (v+p)%2 == 0
+					a.Args = append(a.Args, reflect.ValueOf(b))
+					lab = append(lab, fmt.Sprint(b))
+				} else {
+					a.Args = append(a.Args, reflect.ValueOf(v))
+					lab = append(lab, fmt.Sprint(v))
+				}
+			}
+			a.Label = m.Name + "(" + strings.Join(lab, ",") + ")"
+			out = append(out, a)
 		}
 	}
-	sort.Strings(out)
+	sort.Slice(out, func(i, j int) bool { return out[i].Label < out[j].Label })
 	return out
 }
 
@@ -243,7 +289,15 @@ func DigestSubset(v interface{}, seed uint64, n int) string {
 	if !rv.IsValid() || (rv.Kind() == reflect.Ptr && rv.IsNil()) || !isLib(rv.Type()) {
 		return Digest(v, 1)
 	}
-	names := Accessors(rv.Type())
+	// two argument values for the int/bool-parameter methods, chosen by the seed
+	pool := []int{0, 1, 2, -1, 3, 12, 1, 2}
+	i1 := pool[seed%uint64(len(pool))]
+	i2 := pool[(seed/8)%uint64(len(pool))]
+	ints := []int{i1}
+	if i2 != i1 {
+		ints = append(ints, i2)
+	}
+	names := Accessors(rv.Type(), ints)
 	if n <= 0 || n > len(names) {
 		n = len(names)
 	}
@@ -271,15 +325,15 @@ func DigestSubset(v interface{}, seed uint64, n int) string {
 	return b.String()
 }
 
-func callInto(b *strings.Builder, rv reflect.Value, name string, depth int) {
-	b.WriteString(name + "=")
+func callInto(b *strings.Builder, rv reflect.Value, a Acc, depth int) {
+	b.WriteString(a.Label + "=")
 	func() {
 		defer func() {
 			if r := recover(); r != nil {
 				b.WriteString("PANIC(" + fmt.Sprint(r) + ")")
 			}
 		}()
-		outs := rv.MethodByName(name).Call(nil)
+		outs := rv.MethodByName(a.Name).Call(a.Args)
 		for i, o := range outs {
 			if i > 0 {
 				b.WriteString(",")
@@ -386,7 +440,7 @@ func renderObj(b *strings.Builder, p reflect.Value, depth int) {
 		b.WriteString("}")
 		return
 	}
-	names := Accessors(t)
+	names := Accessors(t, fullInts)
 	if depth > 0 {
 		for _, n := range names {
 			callInto(b, p, n, depth-1)
@@ -394,15 +448,18 @@ func renderObj(b *strings.Builder, p reflect.Value, depth int) {
 	} else {
 		hasString := false
 		for _, n := range names {
-			if n == "String" {
+			if n.Name == "String" {
 				hasString = true
 			}
 		}
 		if hasString {
-			callInto(b, p, "String", 0)
+			callInto(b, p, Acc{Name: "String", Label: "String"}, 0)
 		} else {
 			for _, n := range names {
-				m, _ := t.MethodByName(n)
+				if len(n.Args) > 0 {
+					continue
+				}
+				m, _ := t.MethodByName(n.Name)
 				if basicOut(m.Type.Out(0)) {
 					callInto(b, p, n, 0)
 				}
@@ -411,6 +468,9 @@ func renderObj(b *strings.Builder, p reflect.Value, depth int) {
 	}
 	b.WriteString("}")
 }
+
+// fullInts are the argument values used for int/bool-parameter methods in full digests.
+var fullInts = []int{1, 2}
 
 // FirstDiff describes where two digests part.
 func FirstDiff(a, b string) string {
